@@ -32,12 +32,9 @@ DRIVER = 'drv_C16'
 PY = sys.executable
 WORKER = os.path.join(os.path.dirname(os.path.abspath(__file__)), 'c16_worker.py')
 
-KNOWN_LOCAL = [
-    {'id': 'C16-fix42', 'property': 'C16', 'status': 'known',
-     'signature': {'kind': 'fix-version-4.2'},
-     'what': 'nasdaq-fix-codegen --fix-version 4.2 always fails: Definitions._client_session raises '
-             '"Version 4.2 is not supported" although the CLI offers 4.2 and version_types defines its type table'},
-]
+# no locally known findings: the FIX 4.2 defect (fixes/C16-fix42.md) was repaired by /repo commit b154f58; its failing input is now a
+# regression in corpus/C16/ and must generate, import, round-trip and frame like any other dictionary
+KNOWN_LOCAL = []
 
 
 def report(ctx, what, replay):
@@ -57,8 +54,8 @@ def report(ctx, what, replay):
 #   item:       ['F', name, req] | ['G', name, req, [item...]] | ['C', name, req]          req: None | text
 # =====================================================================================================================
 VERSIONS = ['4.2', '4.4', '5.0', '5.0SP2']
-BEGIN_STRING = {'4.4': 'FIX.4.4', '5.0': 'FIXT.1.1', '5.0SP2': 'FIXT.1.1'}
-SESSION_CLS = {'4.4': 'Fix44Session', '5.0': 'Fix50Session', '5.0SP2': 'Fix50Session'}
+BEGIN_STRING = {'4.2': 'FIX.4.2', '4.4': 'FIX.4.4', '5.0': 'FIXT.1.1', '5.0SP2': 'FIXT.1.1'}
+SESSION_CLS = {'4.2': 'Fix42Session', '4.4': 'Fix44Session', '5.0': 'Fix50Session', '5.0SP2': 'Fix50Session'}
 
 # value type per FIX type name, from the FIX specification (int / float / char-string / boolean based types), written
 # independently of version_types.py.  One deliberate deviation is copied from the library and named: MONTHYEAR is a String
@@ -313,7 +310,7 @@ class DictGen:
     def __init__(self, rng, tier, clean, version=None):
         self.rng = rng
         self.clean = clean
-        self.version = version or rng.choice(['4.4', '4.4', '5.0', '5.0SP2', '5.0SP2'])
+        self.version = version or rng.choice(['4.2', '4.4', '4.4', '5.0', '5.0SP2', '5.0SP2'])
         self.depth_max = (3 if tier == 'quick' else 4)
         self.comps = {}
         self.memo = {}
@@ -851,10 +848,6 @@ def oracle_structure(ctx, d, ref, res, rep):
     out = impl_outcome(res)
     if out[0] != 'ok':
         detail = res.get('gen') if out[0] == 'gen-err' else res.get('imp')
-        if d['version'] == '4.2' and out[0] == 'gen-err' and 'Version 4.2 is not supported' in str((detail or {}).get('msg')):
-            report(ctx, 'a valid FIX 4.2 dictionary cannot be generated: ' + str(detail.get('msg')),
-                   {'kind': 'fix-version-4.2', 'dict': minimal_42()})
-            return False
         report(ctx, f'valid dictionary: {out[0]} {detail}', rep)
         return False
     L, M = res['loaded'], res['module']
@@ -940,11 +933,6 @@ def oracle_behaviour(ctx, d, ref, plans, res, rep):
         if 'frame' in plan:
             for c in check_frame(d['version'], plan, ref, r.get('frame', {'err': {'cls': 'none', 'msg': 'no frame result', 'err': 'other'}})):
                 report(ctx, f'{what}: {c}', prep)
-
-
-def minimal_42():
-    return {'version': '4.2', 'sections': [['messages', [['Heartbeat', '0', 'admin', [['F', 'TestReqID', 'N']]]]],
-                                            ['fields', [['112', 'TestReqID', 'STRING', []]]]]}
 
 
 def correspondence(ctx, d, res, fix_ans, load_ans, rep, valid):
@@ -1099,7 +1087,7 @@ def run_cases(ctx, cases, tmp, workers):
                     ctx.count('plans', len(plans))
             if fix_ans is not None:
                 correspondence(ctx, d, res, fix_ans, load_ans, rep, valid)
-                want_wf = 'true' if (valid and d['version'] != '4.2') else 'false'
+                want_wf = 'true' if valid else 'false'
                 if valid and wf_ans != want_wf:
                     ctx.disagree(f'the Lean guard wfDict/supportedVersion says {wf_ans} for a dictionary the generator produced as valid', rep)
                 if wf_ans == 'true':
@@ -1124,16 +1112,7 @@ def run_cases(ctx, cases, tmp, workers):
     return results
 
 
-def adapt_to_tree():
-    """the oracle treats 4.2 like the other versions as soon as the library has a 4.2 session class (fixes/C16-fix42.md)"""
-    from nasdaq_protocols import fix
-    if hasattr(fix, 'Fix42Session'):
-        BEGIN_STRING['4.2'] = 'FIX.4.2'
-        SESSION_CLS['4.2'] = 'Fix42Session'
-
-
 def run(ctx):
-    adapt_to_tree()
     rng = ctx.rng
     quick = ctx.tier == 'quick'
     n_clean, n_struct, n_mal, n_42 = (200, 200, 110, 6) if quick else (2400, 2400, 1200, 60)
@@ -1141,13 +1120,14 @@ def run(ctx):
     ctx.cov['rule'] = ('one case = one dictionary through the real generator in a fresh process: "clean" (standard header/trailer, tags '
                        'distinct per message; structure + build/encode/decode/validate/frame plans), "structural" (free reuse of fields, '
                        'groups and components, any section order with <fields> last), boundary dictionaries (all type names of each version, '
-                       'a group name used 12 times, depth-4 nesting, component chains declared in both orders), FIX 4.2 dictionaries (known '
-                       'finding), malformed dictionaries (outcome agreement only); distinct = distinct dictionary JSON')
+                       'a group name used 12 times, depth-4 nesting, component chains declared in both orders), extra FIX 4.2 dictionaries '
+                       '(regression of the repaired finding C16-fix42), malformed dictionaries (outcome agreement only); distinct = distinct dictionary JSON')
     ctx.notes += [
         'ElementTree parsing, chevron rendering and the Python import machinery are on the implementation side of the correspondence only; '
         'the model is the element tree -> abstract classes -> references followed by name',
         'Python\'s recursion limit is not modelled (component / group nesting depth of the generated cases stays far below it)',
-        'theorems C16_*_partial carry supportedVersion (4.4, 5.0, 5.0SP2): FIX 4.2 cannot be generated (Witness.C16, known finding C16-fix42)',
+        'FIX 4.2 generation was repaired by /repo b154f58; the theorems cover all four versions, the former counterexample is a regression '
+        '(Witness.C16, corpus/C16/fix42-regression*.json)',
         'the codec/framing clause (C13/C14 instances for generated classes) is checked on the implementation only; the Lean composition '
         'theorem C16_roundtrip_and_frame is wired by the coordinator once Model/Fix.lean exists',
     ]
@@ -1160,7 +1140,7 @@ def run(ctx):
             for f in sorted(os.listdir(cdir)):
                 c = json.load(open(os.path.join(cdir, f)))
                 d = c['dict']
-                v = py_valid(d) or d['version'] == '4.2' and py_valid(dict(d, version='4.4'))
+                v = py_valid(d)
                 cases.append(('corpus:' + f, d, v, make_plans(rng, d, ref_expand(d), ctx.tier) if c.get('plans') and v else []))
         for d in boundary_dicts():
             cases.append(('boundary', d, True, []))
@@ -1295,11 +1275,10 @@ def shrink_first(ctx, tmp, budget=60):
 
 
 def replay(ctx, path):
-    adapt_to_tree()
     r = json.load(open(path))
     rep = r.get('replay') or (r.get('no_longer_checks') or [{}])[-1].get('case') or {}
     ctx.cov['rule'] = 'replay of ' + path
-    if rep.get('kind') == 'fix-version-4.2' or rep.get('kind') == 'dictionary':
+    if rep.get('kind') in ('fix-version-4.2', 'dictionary'):
         d = rep['dict']
         valid = rep.get('valid', True)
         tmp = tempfile.mkdtemp(prefix='c16-')
